@@ -330,7 +330,7 @@ func c18Gen(t *rapid.T) c18Scenario {
 		s.Namespaces = append(s.Namespaces, c18NS{Labels: c18GenLabels(t, fmt.Sprintf("ns%d", i))})
 	}
 
-	maxPN := vt.Scale(5, 5)
+	maxPN := vt.Scale(5, 8)
 	npn := c18Pick(t, maxPN+1, "n-pn")
 	for i := 0; i < npn; i++ {
 		s.PNs = append(s.PNs, c18GenPN(t, i))
